@@ -454,6 +454,18 @@ def trace_records(rng, n_terms, start_id=0):
             else:
                 res = real.xreplace(real_map)
             ops.append({"op": "subst", "t": T.to_json(t), "m": T.map_to_json(m), "r": T.to_json(T.project_pool(res))})
+        # a summation index that also occurs FREE next to the sum: g(sum, i) with a rule for i - the occurrence inside the sum is
+        # bound and stays, the free one is replaced (and the caller's rule is the same for every part of the expression)
+        if bound:
+            kname = sorted(bound)[rng.randrange(len(bound))]
+            ksym = T.concretise_pool(T.leaf(kname))
+            for order in (0, 1):
+                wrapped = sp.Function("g")(real, ksym) if order == 0 else sp.Function("g")(ksym, real)
+                rule = {ksym: sp.Integer(5)}
+                res = wrapped.xreplace(rule)
+                ops.append({"op": "subst", "t": T.to_json(T.project_pool(wrapped)), "m": T.map_to_json([(T.leaf(kname), T.val("5"))]), "r": T.to_json(T.project_pool(res))})
+                if rule != {ksym: sp.Integer(5)}:   # the rule object was modified: the next use of it would substitute something else
+                    ops.append({"op": "subst", "t": T.to_json(T.project_pool(ksym)), "m": T.map_to_json([(T.leaf(kname), T.val("5"))]), "r": T.to_json(T.project_pool(ksym.xreplace(rule)))})
         # equality with a rebuilt copy and with a neighbour
         other = T.concretise_pool(t)
         ops.append({"op": "eq", "t": T.to_json(t), "u": T.to_json(T.project_pool(other)), "eq": int(real == other), "hash": int(hash(real) == hash(other))})
